@@ -129,6 +129,9 @@ def render_names(root, rng, nfiles=6):
         # names, suffixed forms) but never equal to an identifier the user declared
         cands = ["Init" + tag, lc(tys[0]), lc(tys[-1]) + "0", "err", "eg", "ctx", "zero", "ch", lc(tys[0]) + "Ch"]
         cands = [c for c in cands if c not in declared]
+        # the bare names (err, eg, ...) may be used by one file of the package only: injector names are package-level
+        bare = ["err", "eg", "ctx", "zero", "ch"]
+        cands = [c for c in cands if c not in bare] + ([bare[f]] if f < len(bare) else [])
         inj = rng.choice(cands)
         src.append('var _ = kessoku.Inject[*%s]("%s", %s)' % (tys[0], inj, provs))
         src.append('var _ = kessoku.Inject[*%s]("%sB", %s)' % (tys[0], inj, provs))
@@ -153,9 +156,9 @@ type settings struct{ n int }
 type %(t)s%(x)s struct{ s *settings }
 
 func newSettings() *settings { return &settings{} }
-func new%(T)s(s *settings) (*%(t)s%(x)s, error) { return &%(t)s%(x)s{s}, nil }
+func make%(T)s%(x)s(s *settings) (*%(t)s%(x)s, error) { return &%(t)s%(x)s{s}, nil }
 
-var _ = kessoku.Inject[*%(t)s%(x)s]("init%(T)s", kessoku.Provide(newSettings), kessoku.Provide(new%(T)s))
+var _ = kessoku.Inject[*%(t)s%(x)s]("init%(T)s", kessoku.Provide(newSettings), kessoku.Provide(make%(T)s%(x)s))
 
 func main() {}
 ''' % dict(t=decl, T=decl.capitalize(), x="" if decl == "worker" else "Srv"))
